@@ -22,7 +22,11 @@ func init() {
 	// one store error at a chosen call (often the k-th page of keys) of each listing: the listing may fail (or, an observation of
 	// DESIGN.md, never return), but one that returns success is still complete, exact and ordered. (Before the repair 95ae6db
 	// diamond and split listings dropped a failed page and were left out.)
-	Register(&Scenario{Prop: "C07", Name: "listing-one-store-error", Strict: false, Quick: 2, Thorough: 3, Run: func(rc *RunCtx) *simkit.Violation { c07Restricted = true; defer func() { c07Restricted = false }(); return runC07(rc, true, false) }})
+	Register(&Scenario{Prop: "C07", Name: "listing-one-store-error", Strict: false, Quick: 2, Thorough: 3, Run: func(rc *RunCtx) *simkit.Violation {
+		c07Restricted = true
+		defer func() { c07Restricted = false }()
+		return runC07(rc, true, false)
+	}})
 	Register(&Scenario{Prop: "C07", Name: "listing-large", Strict: true, Quick: 1, Thorough: 2, Run: func(rc *RunCtx) *simkit.Violation { return runC07(rc, false, true) }})
 }
 
